@@ -130,3 +130,12 @@ func envVacuity(r *mon.Run) {
 	r.Set("env_cases_library", envCases)
 	r.Set("env_runs_cli", envCLI)
 }
+
+func isEnvMix(name string) bool {
+	for _, n := range envMixes {
+		if n == name {
+			return true
+		}
+	}
+	return false
+}
